@@ -663,9 +663,10 @@ def _match_words(
         resolved_words = [resolved_first] + words[1:]
     else:
         resolved_words = words
-    # In remote mode, skip path normalization (paths are container-local)
+    # In remote mode, skip path normalization (paths are container-local);
+    # a leading ~ was expanded by the local shell, as it is in the patterns
     if remote:
-        normalized_cmd = " ".join(resolved_words)
+        normalized_cmd = " ".join(_expand_home_only(w) for w in resolved_words)
     else:
         normalized_cmd = _normalize_words(resolved_words, cwd)
     result: Match | None = None
